@@ -233,3 +233,106 @@ pub fn names_key(f: &Finding, p: &Program, _o: &Outcome) -> Option<String> {
     }
     None
 }
+
+fn win_fns(p: &Program) -> Vec<WinFn> {
+    fn in_e(e: &E, out: &mut Vec<WinFn>) {
+        match e {
+            E::Win(w, _) => out.push(*w),
+            E::Bin(_, l, r) => {
+                in_e(l, out);
+                in_e(r, out)
+            }
+            E::IsNull(x) => in_e(x, out),
+            E::Call(_, a) => a.iter().for_each(|x| in_e(x, out)),
+            _ => {}
+        }
+    }
+    let mut out = vec![];
+    for s in spine(p) {
+        match s {
+            Step::Derive(items) | Step::Select(items) => items.iter().for_each(|i| in_e(&i.e, &mut out)),
+            Step::Filter(e) => in_e(e, &mut out),
+            Step::Sort(k) => k.iter().for_each(|(_, e)| in_e(e, &mut out)),
+            _ => {}
+        }
+    }
+    // steps nested in window{} inside group{} are one level deeper
+    fn deep(steps: &[Step], out: &mut Vec<WinFn>, f: &dyn Fn(&E, &mut Vec<WinFn>)) {
+        for s in steps {
+            match s {
+                Step::Group { inner, .. } | Step::Window { inner, .. } => deep(inner, out, f),
+                Step::Derive(items) | Step::Select(items) => items.iter().for_each(|i| f(&i.e, out)),
+                Step::Filter(e) => f(e, out),
+                Step::Sort(k) => k.iter().for_each(|(_, e)| f(e, out)),
+                _ => {}
+            }
+        }
+    }
+    if let Some(m) = &p.main {
+        deep(&m.steps, &mut out, &in_e);
+    }
+    out.sort_by_key(|w| *w as u8);
+    out.dedup();
+    out
+}
+
+fn win_in_sort_key(p: &Program) -> bool {
+    fn deep(steps: &[Step]) -> bool {
+        steps.iter().any(|s| match s {
+            Step::Group { inner, .. } | Step::Window { inner, .. } => deep(inner),
+            Step::Sort(k) => k.iter().any(|(_, e)| e.has_win()),
+            _ => false,
+        })
+    }
+    p.main.as_ref().map(|m| deep(&m.steps)).unwrap_or(false)
+}
+
+pub fn window_key(f: &Finding, p: &Program, _o: &Outcome) -> Option<String> {
+    let fns = win_fns(p);
+    if fns.is_empty() {
+        return None;
+    }
+    if win_in_sort_key(p) && matches!(f.kind, Kind::Rows | Kind::EngineReject | Kind::Order) {
+        if f.kind != Kind::EngineReject || f.got.contains("misuse of window function") || f.got.contains("misuse of aggregate") {
+            return Some("window-function-in-sort-key-emitted-without-over".into());
+        }
+    }
+    match f.kind {
+        Kind::Rows => {
+            if fns.iter().all(|w| matches!(w, WinFn::First | WinFn::Last)) {
+                return Some("first-last-ignore-window-frame".into());
+            }
+            if fns == vec![WinFn::Sum] {
+                // every differing cell is (reference 0, implementation NULL); for a windowed filter
+                // the rows kept differ accordingly
+                if let Some((exp, got)) = &f.rows {
+                    let derive = exp.len() == got.len();
+                    if derive {
+                        let mut e2 = exp.clone();
+                        let mut g2 = got.clone();
+                        e2.sort_by(|a, b| row_cmp(a, b));
+                        g2.sort_by(|a, b| row_cmp(a, b));
+                        // replace reference 0 by NULL in the window column (last) and compare again
+                        let fix = |rows: &mut Vec<Vec<V>>| {
+                            for r in rows.iter_mut() {
+                                if let Some(l) = r.last_mut() {
+                                    if matches!(l, V::Int(0)) || matches!(l, V::Real(x) if *x == 0.0) {
+                                        *l = V::Null;
+                                    }
+                                }
+                            }
+                            rows.sort_by(|a, b| row_cmp(a, b));
+                        };
+                        fix(&mut e2);
+                        fix(&mut g2);
+                        if e2.len() == g2.len() && e2.iter().zip(&g2).all(|(a, b)| row_eq(a, b)) {
+                            return Some("window-sum-of-no-values-is-null".into());
+                        }
+                    }
+                }
+            }
+            None
+        }
+        _ => None,
+    }
+}
